@@ -24,6 +24,16 @@ namespace {
 
 using namespace sim;
 
+// a lookup key that stands for a whole group of int keys (2g and 2g+1) under a transparent comparator
+struct Group {
+    int g;
+};
+
+inline auto operator<(int a, Group b) -> bool { return (a >= 0 ? a / 2 : -1) < b.g; }
+
+inline auto operator<(Group b, int a) -> bool { return b.g < (a >= 0 ? a / 2 : -1); }
+
+
 constexpr int kUniverse = 6;
 
 enum class SK { static_set, flat_set };
@@ -244,6 +254,27 @@ struct SetDriver : DriverBase<SetDriver<Set, K, N, MCmp, Which, Transparent>> {
                         auto er = cv.equal_range(hk);
                         if (rank_of(cv, er.first) != wantLb || rank_of(cv, er.second) != wantUb) {
                             bad("equal_range-heterogeneous", rank_of(cv, er.first), wantLb);
+                            return;
+                        }
+                    }
+                    if constexpr (std::is_same_v<K, int>) {
+                        // a heterogeneous key that is equivalent to SEVERAL elements (all keys of one group): count is
+                        // their number, contains is "at least one", find names one of them, the bounds enclose them
+                        Group const grp{k >= 0 ? k / 2 : -1};
+                        long glb = 0, gub = 0;
+                        for (int e : m) {
+                            glb += (e < grp) ? 1 : 0;
+                            gub += !(grp < e) ? 1 : 0;
+                        }
+                        long const gcount = gub - glb;
+                        long const gfind  = rank_of(cv, cv.find(grp));
+                        if (static_cast<long>(cv.count(grp)) != gcount || cv.contains(grp) != (gcount > 0)) {
+                            bad("count-of-a-group", static_cast<long long>(cv.count(grp)), gcount);
+                            return;
+                        }
+                        if (rank_of(cv, cv.lower_bound(grp)) != glb || rank_of(cv, cv.upper_bound(grp)) != gub
+                            || (gcount > 0 ? (gfind < glb || gfind >= gub) : gfind != static_cast<long>(m.size()))) {
+                            bad("bounds-of-a-group", rank_of(cv, cv.lower_bound(grp)), glb);
                             return;
                         }
                     }
